@@ -16,7 +16,7 @@ EXTENDS Config, Json, SequencesExt
 CONSTANTS Rot, Scope
 VARIABLE x
 
-WorkloadSeq == <<"aes", "atax", "bfs", "bicg", "bitonicsort", "concurrentkernel", "concurrentworkload", "conv2d",
+WorkloadSeq == <<"aes", "argreuse", "atax", "bfs", "bicg", "bitonicsort", "concurrentkernel", "concurrentworkload", "conv2d",
                 "fastwalshtransform", "fft", "fir", "floydwarshall", "im2col", "kmeans", "matrixmultiplication",
                 "matrixtranspose", "memcopy", "nbody", "nw", "overlapcopy", "pagerank", "relu", "simpleconvolution", "spmv",
                 "stencil2d", "vectoradd", "xor">>
